@@ -36,13 +36,23 @@ Verdict(C) ==
         common == UNION {
            Fail(nested => (C.fn.n > 0 /\ C.fn.bad = 0 /\ C.fn.orphan = 0), "ProlExactFunction"),
            Fail(C.rbit, "RestBitwise"),
-           Fail(nested => (~C.tnoise /\ IsIdentity(C.TP, 1)), "TruncLeftInverse") }
+           Fail(nested => (~C.tnoise /\ IsIdentity(C.TP, 1)), "TruncLeftInverse"),
+           \* the Transfer object: trunc(prol(x)) = x; clone() and convert() (index type: bitwise; single precision: 2e-4 relative) then use
+           Fail((nested /\ C.trunc) => (~C.tpxnoise /\ C.tpx = C.x), "TransferTruncLeftInverse"),
+           Fail(C.clone_ok, "CloneAgrees"),
+           Fail(C.cvi_ok /\ C.cvf_ok, "ConvertedAgrees"),
+           Fail((nested /\ C.trunc) => C.cvf_tp_ok, "ConvertedTruncLeftInverse"),
+           \* inter-mesh transfer (assemble_intermesh_transfer): XC = fine -> coarse with target cubature points on source-cell interfaces,
+           \* XF = coarse -> fine, XS = the same fine mesh in its original numbering -> the (permuted) fine mesh
+           Fail(C.xfail = 0, "IntermeshUnmapped"),
+           Fail((nested /\ C.xdone) => (~C.xcnoise /\ IsIdentity(C.XCP, 1)), "IntermeshLeftInverse"),
+           Fail(C.xsdone => (~C.xsnoise /\ IsPermutationMatrix(C.XS) /\ C.xs_fn_ok), "IntermeshSameFunction") }
     IN
     IF ~mapsOK THEN Fail(C.gc = Gc, "DofMapCoarse") \cup Fail(C.gf = Gf, "DofMapFine") \cup Fail(C.ngc = ngc /\ C.ngf = ngf, "NumDofs")
     ELSE IF C.intmode # HasNodal(el, fam, dim) THEN {"MACHINERY:Mode"}
     ELSE IF ~C.intmode THEN
       \* families without exact tables (Lagrange-3, Bernstein-2): function-level exactness + float-level agreement of the operators
-      common \cup Fail(C.vdev_ok, "VectorProlAgrees") \cup Fail(C.rdev_ok, "TransferRestAgrees") \cup Fail(C.nnz > 0, "ProlNonTrivial")
+      common \cup Fail(C.xdone => C.xf_ok, "IntermeshProlExact") \cup Fail(C.vdev_ok, "VectorProlAgrees") \cup Fail(C.rdev_ok, "TransferRestAgrees") \cup Fail(C.nnz > 0, "ProlNonTrivial")
     ELSE
     LET T == TLCEval(FamilyTable(el, fam, dim)) IN
     IF ~NodesIntegral(Mc, Mf, par, T) THEN {"MACHINERY:NodesIntegral"}
@@ -65,6 +75,7 @@ Verdict(C) ==
            Fail(h1 => \A i \in 1..ngf : WD[i], "ProlWellDefined"),
            Fail(~C.pnoise, "ProlNoise"),
            Fail(prolOK, "ProlExact"),
+           Fail(C.xdone => (~C.xfnoise /\ Len(C.XF) = ngf /\ \A i \in 1..ngf : RowMatches(C.XF[i], ROWS[i], C.ps, ls)), "IntermeshProlExact"),
            Fail(transOK, "RestIsTranspose"),
            Fail(~C.vnoise /\ vecOK(C.pxv), "VectorProlAgrees"),
            Fail(~C.xnoise /\ vecOK(C.pxt), "TransferProlAgrees"),
